@@ -137,3 +137,7 @@ def run_impl(d):
     # plus the oracle failures of the specialised run that concern C15 itself
     fails += [f for f in fails_s if "props" in f and "C15" in f["props"]]
     return ob, fails
+
+
+# objects with a history (lin.with_history): dry run on the before-state objects, in-place mutation, observed run
+run_impl = lin.with_history(run_impl)
